@@ -156,4 +156,6 @@ func runC05(cx *ctx) {
 			return c
 		})
 	}
+	// hand-built inputs no generator above reaches (c05_extra.go)
+	c05Extra(cx)
 }
